@@ -1,7 +1,8 @@
 (* C06 — evaluation of generated cases: model vs observed implementation output, and the checker. *)
 From Dastard Require Import Common.ZX Common.CaseLib C06.Model C06.Spec.
 
-Record case := { c_cfg : config; c_rs0 : rstate; c_w0 : list (bool * bool * bool); c_hist : list (op * obs) }.
+Record case := { c_cfg : config; c_rs0 : rstate; c_w0 : list (bool * bool * bool); c_hist : list (op * obs);
+                 c_fault : option faultobs (* fault stream: what was seen after a final STOP under an I/O fault *) }.
 
 Definition reqobs_eqb (a b : reqobs) : bool :=
   Bool.eqb (o_ok a) (o_ok b) && rstate_eqb (o_rs a) (o_rs b) && writers_eqb (o_writers a) (o_writers b) &&
@@ -30,7 +31,16 @@ Definition verdict (c : case) : Z * Z :=
   let model := snd (run s0 ops) in
   let d0 := rstate_eqb (c_rs0 c) (rs s0) && writers_eqb (c_w0 c) (map writers_of (chans s0)) in
   let d := if d0 then first_diff 0 impl model else 0 in
-  (verdict_code (d =? -1) (C06_check (c_proj cfg) (c_used cfg) (c_rs0 c) (c_w0 c) (c_hist c)), d).
+  (* fault stream: the final STOP under fault is compared with [fault_obs] of the model's last state *)
+  let fm := fault_obs (fst (run s0 ops)) in
+  let fagree := match c_fault c with
+                | None => true
+                | Some f => writers_eqb (fo_writers f) (fo_writers fm) && (fo_open f =? fo_open fm) &&
+                            Bool.eqb (fo_stored f) (fo_stored fm)
+                end in
+  let fcheck := match c_fault c with None => true | Some f => fault_stop_ok f end in
+  let d := if (d =? -1) && negb fagree then zlen (c_hist c) else d in
+  (verdict_code (d =? -1) (C06_check (c_proj cfg) (c_used cfg) (c_rs0 c) (c_w0 c) (c_hist c) && fcheck), d).
 
 (* compact constructors for generated files *)
 Definition RS a p x y z pb pd bp : rstate :=
@@ -49,7 +59,13 @@ Definition PbX (ch n : Z) : op * obs := (PUB ch n, OPanic).
 Definition mk (proj : list bool) (used : list (Z * Z)) (mapn base : Z) (r0 : rstate)
            (w0 : list (bool * bool * bool)) (h : list (op * obs)) : case :=
   {| c_cfg := {| c_proj := proj; c_used := used; c_map := mapn; c_base := base |};
-     c_rs0 := r0; c_w0 := w0; c_hist := h |}.
+     c_rs0 := r0; c_w0 := w0; c_hist := h; c_fault := None |}.
+Definition mkF (proj : list bool) (used : list (Z * Z)) (mapn base : Z) (r0 : rstate)
+           (w0 : list (bool * bool * bool)) (h : list (op * obs))
+           (fw : list (bool * bool * bool)) (fopen : Z) (fstored : bool) : case :=
+  {| c_cfg := {| c_proj := proj; c_used := used; c_map := mapn; c_base := base |};
+     c_rs0 := r0; c_w0 := w0; c_hist := h;
+     c_fault := Some {| fo_writers := fw; fo_open := fopen; fo_stored := fstored |} |}.
 (* a case that killed the harness process before any observation could be rendered *)
 Definition crashed : case :=
   mk [] [] (-1) 0 (init_rs 0) [] [PbX 0 0].
